@@ -78,6 +78,21 @@ def isOk {α} (m : GoM α) : GoM Bool :=
   | .error (.err _) => .ok false
   | .error other => .error other
 
+/-- `x, err := f(); if err != nil { …answer with a value… }`: the callee's error VALUE is observed (`none`), its result otherwise;
+a panic (or exhausted fuel) of the callee is not an error value and stays what it is -/
+def attempt {α} (m : GoM α) : GoM (Option α) :=
+  match m with
+  | .ok v => .ok (some v)
+  | .error (.err _) => .ok none
+  | .error other => .error other
+
+/-- `x, err := f(); if err != nil { panic(…) }`: the callee's error value becomes a panic of the caller -/
+def errToPanic {α} (m : GoM α) : GoM α :=
+  match m with
+  | .ok v => .ok v
+  | .error (.err n) => .error (.panic n)
+  | .error other => .error other
+
 /-- `errs = errors.Join(errs, e)` with a non-nil `e`: the accumulated error is non-nil afterwards (the model keeps the first) -/
 def joinErr (errs : Option GoErr) (e : GoErr) : Option GoErr := some (errs.getD e)
 
